@@ -519,10 +519,19 @@ func (c *Ctx) havocLoc(st *State, old *State, fr *Frame, env *Env, m ModLoc, tgt
 				unsupp("modifies elems(%s): no such parameter", id.Name)
 			}
 		case "keys", "mapof":
-			base := env.eval(e.Args[0])
+			// only the named map changes: the other maps of the same type keep their keys and values
+			oenv := *env
+			oenv.cur = old
+			base := oenv.eval(e.Args[0])
 			mi := c.mapInfo(base.GoT)
-			c.heapHavoc(st, mi.KeyHas, mi.HasSort)
-			c.heapHavoc(st, mi.KeyVal, mi.ValSort)
+			hk := c.heapCur(st, mi.KeyHas, mi.HasSort)
+			hv := c.heapCur(st, mi.KeyVal, mi.ValSort)
+			nk := c.heapHavoc(st, mi.KeyHas, mi.HasSort)
+			nv := c.heapHavoc(st, mi.KeyVal, mi.ValSort)
+			fk := c.fresh("mod_"+mi.KeyHas, Sort(fmt.Sprintf("(Array %s Bool)", mi.K)))
+			fv := c.fresh("mod_"+mi.KeyVal, Sort(fmt.Sprintf("(Array %s %s)", mi.K, mi.V)))
+			st.assume(eq(nk, sto(hk, base, fk)))
+			st.assume(eq(nv, sto(hv, base, fv)))
 		case "alloc":
 			c.havocKey(st, aliveKey)
 		case "chan":
@@ -570,6 +579,10 @@ func (c *Ctx) atCallClauses(st *State, fr *Frame, cc *ssa.CallCommon, instr ssa.
 		matched := false
 		for _, s := range site {
 			if cl.Site == s {
+				matched = true
+			}
+			// NAME#* : every call of NAME
+			if strings.HasSuffix(cl.Site, "#*") && strings.HasPrefix(s, strings.TrimSuffix(cl.Site, "*")) {
 				matched = true
 			}
 		}
